@@ -239,6 +239,21 @@ static Spec3 free_station(const std::string& name, bool give_station_xy) {
   return s;
 }
 
+// a spatial traverse between two fixed points, oriented at both ends, with a different instrument height at every station and a
+// different target height on every sight (one prism pole 2 m, one mini prism 0.1 m); the coordinates of the traverse points are omitted
+static Spec3 traverse3d(const std::string& name, bool heights) {
+  Spec3 s; s.name = name;
+  s.pts = {{"S", 1000, 2000, 300, "fix=\"xyz\"", true}, {"Z", 700, 2300, 310, "fix=\"xyz\"", true}, {"P1", 1120, 2160, 330, "adj=\"xyz\"", false}, {"P2", 1300, 2080, 290, "adj=\"xyz\"", false},
+           {"E", 1580, 2176, 320, "fix=\"xyz\"", true}, {"Z2", 1800, 1900, 305, "fix=\"xyz\"", true}};
+  auto H = [&](int n, int d) { return heights ? Q(n, d) : Q(0); };
+  auto sight = [&](St3& st, int to, Q th) { st.obs.push_back({0, to, Q(10), Q(0)}); st.obs.push_back({1, to, Q(5), th}); st.obs.push_back({2, to, Q(12), th}); };
+  { St3 st; st.from = 0; st.zero = Q(9, 10); st.ih = H(3, 2); st.obs.push_back({0, 1, Q(10), Q(0)}); sight(st, 2, H(13, 10)); s.st.push_back(st); }
+  { St3 st; st.from = 2; st.zero = Q(52, 10); st.ih = H(8, 5); sight(st, 0, H(7, 5)); sight(st, 3, H(2, 1)); s.st.push_back(st); }
+  { St3 st; st.from = 3; st.zero = Q(27, 10); st.ih = H(29, 20); sight(st, 2, H(17, 10)); sight(st, 4, H(1, 10)); s.st.push_back(st); }
+  { St3 st; st.from = 4; st.zero = Q(38, 10); st.ih = H(31, 20); st.obs.push_back({0, 3, Q(10), Q(0)}); st.obs.push_back({0, 5, Q(10), Q(0)}); s.st.push_back(st); }
+  return s;
+}
+
 static void gen_cases(const sx::Options& opt, std::vector<sx::Case>& cases) {
   g_prop = opt.prop; bool th = opt.tier == "thorough";
   auto add = [&](const std::string& n, const std::string& fam, std::function<void()> f) { cases.push_back({n, fam, f}); };
@@ -250,6 +265,8 @@ static void gen_cases(const sx::Options& opt, std::vector<sx::Case>& cases) {
       add("net3d/consistent/" + s.name + "/" + ALGS[alg] + (omit ? (so ? "/acord-nothing-removed" : "/acord") : "/given"), "spatial networks", [sp, alg, omit, so] { case_consistent(*sp, alg, omit != 0, so); });
       if (so) add("net3d/consistent/" + s.name + "/" + ALGS[alg] + "/acord", "spatial networks", [sp, alg] { case_consistent(*sp, alg, true, false); }); } }
   if (on("C06")) { for (int alg = 0; alg < (th ? 3 : 1); alg++) { auto sp = std::make_shared<Spec3>(free_station("free-station", false)); add(std::string("net3d/consistent/free-station/") + ALGS[alg] + "/acord", "spatial networks", [sp, alg] { case_consistent(*sp, alg, true); }); } }
+  if (on("C06")) { int k = 0; for (int h = 0; h < 2; h++) { auto sp = std::make_shared<Spec3>(traverse3d(h ? "traverse-heights" : "traverse-plain", h != 0)); for (int omit = 0; omit < 2; omit++) { if (!th && !omit) continue; int alg = (k++) % 3;
+        add("net3d/consistent/" + sp->name + "/" + ALGS[alg] + (omit ? "/acord" : "/given"), "spatial networks", [sp, alg, omit] { Spec3 t = *sp; if (!omit) for (auto& p : t.pts) p.give = true; case_consistent(t, alg, omit != 0); }); } } }
   if (on("C13")) { for (int v = 0; v < 2; v++) add(std::string("net3d/export-description/") + (v ? "station-height" : "sight-heights"), "spatial networks", [v] { case_export_description(v != 0); });
     add("net3d/export-description/station-height-covmat", "spatial networks", [] { case_export_description(true, "ne", "left-handed", true); });
     add("net3d/export-description/station-height-degrees", "spatial networks", [] { case_export_description(true, "ne", "left-handed", false, true); });
